@@ -46,22 +46,54 @@ def run(tier, seed):
     info = json.loads(pc.stdout.strip().split("\n")[-1])
     # first-stage verdicts (static rules, distance heuristic, proof kernel, extended kernel; 'illegal' can only come from this stage)
     # on a much larger set of reachable positions: 'texelutil proofgame -f' without the iterated path / proof game search
-    kg, kf, ko = os.path.join(wd, "kgames.txt"), os.path.join(wd, "kfens.txt"), os.path.join(wd, "kout.txt")
+    kg, kf = os.path.join(wd, "kgames.txt"), os.path.join(wd, "kfens.txt")
     vlib.sh([hp, "games", str(seed + 9000), str(sz["kgames"]), kg, kf], timeout=900)
-    with open(kf) as fi, open(ko, "w") as fo, open(os.path.join(wd, "kfilter.log"), "w") as lo:
-        kr = subprocess.run([os.path.join(bdir, "texelutil"), "-j", "16", "proofgame", "-f"], stdin=fi, stdout=fo, stderr=lo, timeout=6000)
-    if kr.returncode != 0:
-        rep.violation("filter-crash", f"texelutil proofgame -f exited {kr.returncode}", files=[os.path.join(wd, "kfilter.log")])
+    kgl, kfl = open(kg).read().strip().split("\n"), open(kf).read().strip().split("\n")
+    tu = os.path.join(bdir, "texelutil")
+
+    def filt(fens, tag):
+        """one single-threaded 'proofgame -f' process on a list of FENs -> (return code, output lines)"""
+        inp, outp = os.path.join(wd, f"kin.{tag}.txt"), os.path.join(wd, f"kout.{tag}.txt")
+        open(inp, "w").write("\n".join(fens) + "\n")
+        with open(inp) as fi, open(outp, "w") as fo, open(os.path.join(wd, f"kfilter.{tag}.log"), "w") as lo:
+            r = subprocess.run([tu, "-j", "1", "proofgame", "-f"], stdin=fi, stdout=fo, stderr=lo, timeout=6000)
+        return r.returncode, [x for x in open(outp).read().split("\n") if x.strip()]
+    # chunks, so that an abort of the tool (a failed assertion in the kernel code) loses one chunk only and can be pinned to a position
+    chunk = 25
+    cjobs = [(c, list(range(c, min(c + chunk, len(kfl))))) for c in range(0, len(kfl), chunk)]
+
+    def runchunk(j):
+        c, idx = j
+        rc, lines = filt([kfl[i] for i in idx], f"c{c}")
+        if rc == 0 and len(lines) == len(idx):
+            return [(i, ln) for i, ln in zip(idx, lines)], None
+        # find the position the tool dies on: one process per position
+        done, crash = [], None
+        for i in idx:
+            rc1, l1 = filt([kfl[i]], f"c{c}.s")
+            if rc1 == 0 and len(l1) == 1:
+                done.append((i, l1[0]))
+            elif crash is None:
+                crash = (i, rc1)
+        return done, crash
+    answered = []
+    for done, crash in vlib.pmap(runchunk, cjobs):
+        answered += done
+        if crash:
+            i, rc1 = crash
+            wit = os.path.join(wd, f"crash_{i}.txt")
+            open(wit, "w").write(kfl[i] + "\n" + kgl[i] + "\n")
+            rep.violation("filter-crash", f"texelutil proofgame -f dies (exit {rc1}) on the reachable position {kfl[i]} (game: {kgl[i][:200]})", files=[wit])
     kinfo = {"positions": 0, "legal": 0, "unknown": 0, "illegal": 0}
     kfiles = []
-    kgl, kol = open(kg).read().strip().split("\n"), open(ko).read().strip().split("\n")
-    if len(kol) != len(kgl):
-        raise vlib.ToolFailure(f"proofgame -f answered {len(kol)} of {len(kgl)} positions")
     kparts = 10
     for k in range(kparts):
+        mine = answered[k::kparts]
+        if not mine:
+            continue
         gp, op_, tp = os.path.join(wd, f"kg.{k}.txt"), os.path.join(wd, f"ko.{k}.txt"), os.path.join(wd, f"kpg.{k}.ndjson")
-        open(gp, "w").write("\n".join(kgl[k::kparts]) + "\n")
-        open(op_, "w").write("\n".join(kol[k::kparts]) + "\n")
+        open(gp, "w").write("\n".join(kgl[i] for i, _ in mine) + "\n")
+        open(op_, "w").write("\n".join(ln for _, ln in mine) + "\n")
         pk = vlib.sh([hp, "convert", gp, op_, tp], timeout=600)
         if pk.returncode != 0:
             raise vlib.ToolFailure("h_proof convert: " + pk.stderr[-300:])
